@@ -30,6 +30,7 @@ type clientTxnSys struct {
 	rets    []Obs
 	started map[string]bool
 	rto     time.Duration
+	slow    map[string]chan struct{} // first write of t is parked until released
 }
 
 var errInjectedWrite = errors.New("memnet: injected write error")
@@ -37,7 +38,7 @@ var errInjectedWrite = errors.New("memnet: injected write error")
 func newClientTxnSys(meta Meta, seed int64, _ any) (Sys, error) {
 	s := &clientTxnSys{
 		net: NewMemNet(), seed: seed, txid: map[string][stun.TransactionIDSize]byte{}, name: map[[stun.TransactionIDSize]byte]string{},
-		writes: map[string]int{}, failAt: map[string]int{}, started: map[string]bool{},
+		writes: map[string]int{}, failAt: map[string]int{}, started: map[string]bool{}, slow: map[string]chan struct{}{},
 	}
 	ms, _ := strconv.Atoi(meta.Extra["RTO"])
 	s.rto = time.Duration(ms) * time.Millisecond
@@ -57,6 +58,9 @@ func newClientTxnSys(meta Meta, seed int64, _ any) (Sys, error) {
 		if s.failAt[t] == s.writes[t] {
 			return errInjectedWrite
 		}
+		if ch := s.slow[t]; ch != nil && s.writes[t] == 1 {
+			<-ch // the caller is inside conn.WriteTo until the harness releases it
+		}
 
 		return nil
 	}
@@ -73,6 +77,10 @@ func newClientTxnSys(meta Meta, seed int64, _ any) (Sys, error) {
 }
 
 func (s *clientTxnSys) Close() {
+	for t, ch := range s.slow {
+		close(ch)
+		delete(s.slow, t)
+	}
 	s.cl.Close()
 	_ = s.cconn.Close()
 	_ = s.server.Close()
@@ -96,9 +104,15 @@ func (s *clientTxnSys) Do(a map[string]any, wait func()) ([]Obs, error) {
 	wait()
 	t, _ := a["t"].(string)
 	switch a["a"] {
-	case "Start":
+	case "WriteDone":
+		close(s.slow[t])
+		delete(s.slow, t)
+	case "Start", "StartSlow":
 		id := s.id(t)
 		s.failAt[t] = toInt(a["failAt"])
+		if a["a"] == "StartSlow" {
+			s.slow[t] = make(chan struct{})
+		}
 		msg := stun.MustBuild(txidSetter(id), stun.BindingRequest)
 		s.started[t] = true
 		go func() {
@@ -216,7 +230,7 @@ func (s *clientTxnSys) Check(e Edge, obs []Obs) []Mismatch {
 	tx, _ := ts["txn"].(map[string]any)
 	pending := 0
 	for _, v := range tx {
-		if r, _ := v.(map[string]any); r["phase"] == "pending" {
+		if r, _ := v.(map[string]any); r["phase"] == "pending" || (r["phase"] == "writing" && r["got"] == "none") {
 			pending++
 		}
 	}
